@@ -429,8 +429,13 @@ def gen_crop_calendar(rng, n):
             dates = pd.date_range(start, end, freq="D")
             nn = len(dates)
             base = rng.uniform(5, 25); amp = rng.uniform(0, 12)
-            tmin = [round(base + amp * np.sin(j / 58.0) + rng.uniform(-4, 4), 1) for j in range(nn)]
-            tmax = [round(tmin[j] + rng.uniform(2, 15), 1) for j in range(nn)]
+            tie = rng.random() < 0.3       # temperatures reported in half degrees: cumulative degree days are exact and can EQUAL a threshold
+            if tie:
+                tmin = [round((base + amp * np.sin(j / 58.0) + rng.uniform(-4, 4)) * 2) / 2 for j in range(nn)]
+                tmax = [tmin[j] + rng.choice([4.0, 6.0, 8.0, 10.0, 12.0]) for j in range(nn)]
+            else:
+                tmin = [round(base + amp * np.sin(j / 58.0) + rng.uniform(-4, 4), 1) for j in range(nn)]
+                tmax = [round(tmin[j] + rng.uniform(2, 15), 1) for j in range(nn)]
             w = pd.DataFrame({"MinTemp": tmin, "MaxTemp": tmax, "Precipitation": np.zeros(nn), "ReferenceET": np.full(nn, 4.0), "Date": dates})
             # first planting date as compute_crop_calendar derives it (planting_dates still empty at that point)
             py = start.year
@@ -449,6 +454,19 @@ def gen_crop_calendar(rng, n):
                     kw["Maturity"] = float(cum[j]) - rng.choice([0.0, 0.01, 1e-9])   # first exceeded at index j (or j+1 when equal)
                     c = Crop(name, planting_date=c.planting_date, harvest_date=None, **kw)
                     COV["gdd target~365"] += 1
+            if tie and len(gdd) > 60:
+                # one phenological threshold placed EXACTLY on a cumulative sum (the conversion takes the first day with cum > threshold)
+                cum = np.cumsum(gdd)
+                which = rng.choice(["Emergence", "Senescence", "HIstart", "Maturity"])
+                cur = float(getattr(c, which))
+                j = int(np.searchsorted(cum, cur))
+                if 0 < j < len(cum) - 2 and cum[j] > cum[j - 1]:
+                    kw[which] = float(cum[j])
+                    try:
+                        c = Crop(name, planting_date=c.planting_date, harvest_date=None, **kw)
+                        COV["gdd exact tie on " + which] += 1
+                    except Exception:
+                        pass
             args = (int(c.Determinant), int(c.CropType), float(c.Emergence), float(c.Senescence), float(c.Maturity), float(c.HIstart),
                     float(c.Flowering), float(c.YldForm), c.CC0, c.CCx, c.CGC)
             try:
